@@ -45,7 +45,7 @@ MC_ORACLE static void acquired (void *m, int acq, int writer) {
 	(void) writer;
 	if (m != (void *) &mu || !acq) return;
 	if (me == VICTIM) { victim_in_call = 0; return; }
-	if (victim_in_call && (int) mc_sleeps_of (VICTIM) >= LONG_WAIT_THRESHOLD + 1 && mc_sleeps_of (me) == 0) {
+	if (victim_in_call && ((int) mc_sleeps_of (VICTIM) >= LONG_WAIT_THRESHOLD + 1 || (int) h_call_dequeues (VICTIM) >= LONG_WAIT_THRESHOLD + 1) && !h_call_has_waited (me)) {
 		fresh_after_escalation++;
 		mc_fail ("starvation avoidance broken at the real threshold: T%d acquired with a call that never waited although the victim has been sent back to sleep %u times (threshold %d)", me, mc_sleeps_of (VICTIM), LONG_WAIT_THRESHOLD);
 	}
@@ -60,7 +60,7 @@ static void late_thread (int me) {
 	if (me == VICTIM) {
 		unsigned s;
 		mc_await (&go_a);
-		mc_blocks_reset ();
+		mc_blocks_reset (); h_call_begin ();
 		victim_begin ();
 		nsync_mu_lock (&mu);
 		s = mc_sleeps_of (VICTIM);
@@ -76,7 +76,7 @@ static void late_thread (int me) {
 		nsync_mu_unlock (&mu);                /* wakes both readers */
 		mc_handoff (2);                       /* the prompt one takes the mutex, releases it (waking the victim) and hands back */
 		for (r = 0; r < LONG_WAIT_THRESHOLD + 1; r++) {
-			mc_blocks_reset ();
+			mc_blocks_reset (); h_call_begin ();
 			nsync_mu_lock (&mu);          /* a fresh call gets in ahead of the woken victim ... */
 			(void) mc_blocks ();
 			mc_handoff (VICTIM);          /* ... which fails, and after LONG_WAIT_THRESHOLD failures escalates */
@@ -85,14 +85,14 @@ static void late_thread (int me) {
 		}
 	} else if (me == 2) {
 		mc_await (&started);
-		mc_blocks_reset ();                   /* these calls do wait: the oracle must see that */
+		mc_blocks_reset (); h_call_begin ();  /* these calls do wait: the oracle must see that */
 		nsync_mu_rlock (&mu);
 		(void) mc_blocks ();
 		nsync_mu_runlock (&mu);
 		mc_handoff (1);
 	} else {
 		mc_await (&go_r2);
-		mc_blocks_reset ();
+		mc_blocks_reset (); h_call_begin ();
 		nsync_mu_rlock (&mu);                 /* woken early, scheduled late */
 		(void) mc_blocks ();
 		nsync_mu_runlock (&mu);
@@ -104,7 +104,7 @@ static void ad_thread (int me) {
 	if (me == VICTIM) {
 		unsigned s;
 		mc_await (&started);
-		mc_blocks_reset ();
+		mc_blocks_reset (); h_call_begin ();
 		victim_begin ();
 		if (vreader) nsync_mu_rlock (&mu); else nsync_mu_lock (&mu);
 		s = mc_sleeps_of (VICTIM);
@@ -117,7 +117,7 @@ static void ad_thread (int me) {
 		int got = 1, next = 1 + (r + 1) % nbarg;
 		if (r > 0) mc_await (&turn[r]);
 		if (strat == 2 && r > 0) mc_thread_recycle ();
-		mc_blocks_reset ();
+		mc_blocks_reset (); h_call_begin ();
 		if (bkind == 'L') nsync_mu_lock (&mu); else if (bkind == 'R') nsync_mu_rlock (&mu); else got = nsync_mu_trylock (&mu);
 		(void) mc_blocks ();
 		if (r == 0) mc_flag_set (&started, 1);
